@@ -30,7 +30,11 @@ META = {
         'every arithmetic, logical and relational operator, unary operator and conversion function, and the string '
         'operators/functions, are evaluated with live scalars and array elements of every type as left, right or only '
         'operand (directed: the full operator x operand-pair table; random: over the history\'s own variables); '
-        'afterwards each operand must still have its value and its bytes at VARPTR, whatever the result or error.'),
+        'afterwards each operand must still have its value and its bytes at VARPTR, whatever the result or error. '
+        'This includes evaluations that fail part-way with every hard error class reachable in an expression (overflow, Illegal function '
+        'call, type mismatch, subscript; integer division by zero as handled by the interpreter) and DEF FN calls whose parameters shadow live variables of all four types '
+        '(single-, multi-parameter, nested and always-failing functions; good, failing and variable arguments): the '
+        'shadowed variables and the arguments keep value and bytes, and the full dump of ALL variables follows.'),
     'level_note': (
         'Trusted: the harness, Session.evaluate for the PEEK/VARPTR expressions, vf.models.rnum encodings. Strings whose '
         'data lie in the program text (literals of stored lines) are checked for content only. Overlap of string DATA '
@@ -43,7 +47,8 @@ META = {
     'design_ref': 'DESIGN.md section 4 C11',
     'assumptions': ['DS:358h/35Ah/35Ch hold start of variables / start of arrays / end of arrays (GW-BASIC memory map)'],
     'require_counters': {'any': ['erase_nonlast_seen', 'two_arrays_alive_dumps', 'gc_seen', 'swap_seen',
-                                 'string_realloc_seen', 'element_bytes_checked', 'operand_frame_checks']},
+                                 'string_realloc_seen', 'element_bytes_checked', 'operand_frame_checks',
+                                 'deffn_calls', 'deffn_calls_failing', 'expression_evaluations_with_error']},
     'timeout': {'quick': 900, 'thorough': 10800},
 }
 
@@ -64,6 +69,37 @@ STR_UNARY = [('LEFT$(%s,2)', 'left'), ('RIGHT$(%s,2)', 'right'), ('MID$(%s,2,3)'
              ('CHR$(65)+%s', 'concat-right'), ('SPACE$(LEN(%s))', 'len'), ('STRING$(2,%s+"x")', 'string'),
              ('STR$(ASC(%s+"a"))', 'asc'), ('STR$(VAL(%s))', 'val'), ('STR$(INSTR(%s,"a"))', 'instr'),
              ('STR$(CVI(%s+"ab"))', 'cvi')]
+
+
+# sub-expressions that raise an error of each class when they are reached
+FAILING_NUM = ['CINT(1E10)', 'SQR(-1)', 'LOG(0)', '(1\\0)', '("a"+1)', 'ZQ9%(99)', 'ASC("")', 'LEN(CHR$(300))']
+FN_BODY = {'%': 'CINT(%s*2)', '!': 'SQR(%s)', '#': 'LOG(%s)', '$': 'CHR$(ASC(%s))+%s'}
+GOOD_ARG = {'%': ['7', '100'], '!': ['2.5', '9'], '#': ['3.25#', '1'], '$': ['"abc"', '"z"+"y"']}
+BAD_ARG = {'%': ['30000', '(-20000)'], '!': ['(-1)', '(-2.5)'], '#': ['0', '(-3#)'], '$': ['""', 'MID$("a",5)']}
+
+
+def make_functions(params):
+    """Function definitions over the given parameter variables (one per type at most):
+    one function per parameter, one over all parameters, a nested one, one that always fails."""
+    defs = []
+    letters = iter('ABCDEFGH')
+    firstnum = None
+    for prm in params:
+        sg = prm[-1]
+        name = 'FNQ' + next(letters) + sg
+        body = FN_BODY[sg].replace('%s', prm)
+        defs.append((name, [prm], body, []))
+        if sg != '$' and firstnum is None:
+            firstnum = (name, prm)
+    if len(params) > 1:
+        terms = [('LEN(%s)+ASC(%s)' % (prm, prm)) if prm[-1] == '$' else FN_BODY[prm[-1]].replace('%s', prm) for prm in params]
+        defs.append(('FNQ' + next(letters) + '#', list(params), '+'.join(terms), []))
+    if firstnum is not None:
+        name, prm = firstnum
+        # nested: the inner call binds the same parameter again, with an argument that may make it fail
+        defs.append(('FNQ' + next(letters) + '#', [prm], '%s(%s-%s)+1' % (name, prm, '3'), [name]))
+        defs.append(('FNQ' + next(letters) + '!', [prm], '%s+("a"+1)' % prm, []))
+    return defs
 
 
 def plan(tier, seed):
@@ -277,6 +313,44 @@ class History(object):
         self.dumper = Dumper(self.box, res, harness)
         self.failed = False
         self.gc0 = minv.STATE.gc_count
+        self.fns = []           # (name, [parameter variables], nested parameter variables) defined in this session
+
+    def define_functions(self, defs):
+        """
+        defs = [(name, [params], body text, [nested fn names])]. DEF FN needs stored lines, and storing a line
+        clears the variables, so this is done first.  DEF FN itself allocates its parameter variables:
+        from then on they are live variables (with default values) and part of the model.
+        """
+        line = 10
+        for name, params, body, _ in defs:
+            text = b'%d DEF %s(%s)=%s' % (line, name.encode(), ','.join(params).encode(), body.encode())
+            self.steps.append(text)
+            self.box.ex(text)
+            line += 10
+        self.box.ex(b'%d END' % line)
+        self.ex(b'GOTO 10')
+        if self.failed:
+            return
+        byname = {}
+        for name, params, body, nested in defs:
+            shadow = list(params)
+            for n in nested:
+                shadow += byname.get(n, [])
+            byname[name] = shadow
+            self.fns.append((name, list(params), sorted(set(shadow))))
+            for prm in params:
+                if prm not in self.model.scalars:
+                    self.model.scalars[prm] = self.model.default(prm[-1])
+        self.res.count('deffn_defined', len(defs))
+
+    def call_function(self, fn, args, arg_vars, prefix='', suffix=''):
+        """Evaluate prefix FN(args) suffix; the parameter-shadowed variables and the argument variables must keep
+        their value and bytes whether the call succeeds or fails."""
+        name, params, shadow = fn
+        text = prefix + name + '(' + ','.join(args) + ')' + suffix
+        ops = [('shadowed-parameter', v) for v in shadow] + [('argument', v) for v in arg_vars if v not in shadow]
+        self.res.count('deffn_calls')
+        self.evaluate('deffn-call', text.encode(), ops, string_result=name.endswith('$'))
 
     def close(self):
         self.box.close()
@@ -389,6 +463,9 @@ class History(object):
             self.res.count('expression_evaluations')
             if code:
                 self.res.count('expression_evaluations_with_error')
+                self.res.count('failing_evaluation_error_%d_seen' % code)
+                if opname == 'deffn-call':
+                    self.res.count('deffn_calls_failing')
             for side, src in operands:
                 sigil = src.split('(')[0][-1]
                 val = self.get_obj(src)
@@ -399,7 +476,8 @@ class History(object):
                 self.res.count('operand_frame_checks')
                 tname = {'%': 'integer', '!': 'single', '#': 'double', '$': 'string'}[sigil]
                 kind = 'array-element' if '(' in src else 'scalar'
-                key = 'expression-evaluation-changed-operand:%s:%s-operand:%s-%s' % (opname, side, tname, kind)
+                key = 'expression-evaluation-changed-operand:%s:%s-operand:%s-%s%s' % (
+                    opname, side, tname, kind, ':failing-evaluation' if code else '')
                 if sigil == '$':
                     data = b''
                     if raw[0]:
@@ -571,8 +649,37 @@ def random_step(hist, rng):
         nums = [o[0] for o in objs if o[1] != '$']
         strs = [o[0] for o in objs if o[1] == '$']
         for _ in range(4):
-            if nums and (rng.random() < 0.7 or not strs):
-                if rng.random() < 0.75:
+            if hist.fns and rng.random() < 0.4:
+                # a function call whose parameters shadow live variables: good, failing and variable arguments
+                fn = rng.choice(hist.fns)
+                args, arg_vars = [], []
+                for prm in fn[1]:
+                    sg = prm[-1]
+                    same = [o[0] for o in objs if o[1] == sg]
+                    q = rng.random()
+                    if q < 0.35 and same:
+                        v = rng.choice(same)
+                        args.append(v)
+                        arg_vars.append(v)
+                    elif q < 0.7:
+                        args.append(rng.choice(GOOD_ARG[sg]))
+                    else:
+                        args.append(rng.choice(BAD_ARG[sg]))
+                prefix = ''
+                if nums and rng.random() < 0.4 and not fn[0].endswith('$'):
+                    v = rng.choice(nums)
+                    prefix = v + rng.choice(('+', '*', '-'))
+                    arg_vars.append(v)
+                hist.call_function(fn, args, arg_vars, prefix=prefix)
+            elif nums and (rng.random() < 0.7 or not strs):
+                if rng.random() < 0.3:
+                    # an evaluation that fails part-way, after (or before) it has read its operands
+                    a, b = rng.choice(nums), rng.choice(nums)
+                    op, name = rng.choice(NUM_BINOPS[:12])
+                    bad = rng.choice(FAILING_NUM)
+                    text = (a + op + b + '+' + bad) if rng.random() < 0.6 else (bad + '+' + a + op + b)
+                    hist.evaluate(name + '-then-error', text.encode(), [('left', a), ('right', b)])
+                elif rng.random() < 0.75:
                     a, b = rng.choice(nums), rng.choice(nums)
                     op, name = rng.choice(NUM_BINOPS)
                     hist.evaluate(name, (a + op + b).encode(), [('left', a), ('right', b)])
@@ -597,6 +704,16 @@ def run_history(spec, rng, res, harness, minv):
         hid = '%s/%s/%d' % (spec['seed'], spec.get('part', 0), hno)
         hist = History(res, rng, harness, minv, hid)
         try:
+            if rng.random() < 0.7:
+                # functions whose parameters are (future) live variables of the history
+                sig = rng.sample(SIGILS, rng.randint(1, 4))
+                params, taken = [], set()
+                for sg in sig:
+                    nm = rand_name(rng, taken)
+                    taken.add(nm)
+                    params.append(nm + sg)
+                hist.define_functions(make_functions(params))
+                hist.verify(0)
             sno = 0
             tries = 0
             while sno < spec['steps'] and not hist.failed and tries < spec['steps'] * 4:
@@ -741,6 +858,51 @@ def run_directed(spec, res, harness, minv):
             for a in strs:
                 hist.evaluate('string-' + name, (op % a).encode(), [('only', a)], string_result=True)
         hist.verify(3)
+        hist.finish()
+    finally:
+        hist.close()
+    # 2c. DEF FN calls whose parameters shadow live variables (all four types, nested, multi-parameter, always failing),
+    #     succeeding and failing; and plain expressions failing part-way with every error class
+    hist = History(res, None, harness, minv, 'directed/shadowed-parameters')
+    try:
+        params = ['QI%', 'QS!', 'QD#', 'QT$']
+        hist.define_functions(make_functions(params))
+        hist.verify(0)
+        hist.assign_scalar('QI%', E('%', 7), 'basic')
+        hist.assign_scalar('QS!', E('!', Fraction(5, 2)), 'basic')
+        hist.assign_scalar('QD#', E('#', Fraction(13, 4)), 'basic')
+        hist.assign_scalar('QT$', b'global', 'basic')
+        hist.assign_scalar('QV#', E('#', Fraction(-9, 8)), 'basic')
+        hist.dim('KI%', [2])
+        hist.dim('KD#', [1])
+        hist.assign_element('KI%', (1,), E('%', -3))
+        hist.assign_element('KD#', (1,), E('#', Fraction(3, 4)))
+        hist.verify(1)
+        sno = 1
+        for fn in hist.fns:
+            choices = []
+            for prm in fn[1]:
+                sg = prm[-1]
+                same = {'%': ['QI%', 'KI%(1)'], '!': ['QS!'], '#': ['QD#', 'QV#', 'KD#(1)'], '$': ['QT$']}[sg]
+                choices.append([(a, None) for a in GOOD_ARG[sg] + BAD_ARG[sg]] + [(v, v) for v in same])
+            # every argument choice for single-parameter functions; a diagonal for the others
+            n = max(len(c) for c in choices)
+            for i in range(n):
+                pick = [c[(i + 2 * j) % len(c)] for j, c in enumerate(choices)]
+                args = [a for a, _ in pick]
+                avars = [v for _, v in pick if v]
+                hist.call_function(fn, args, avars)
+                if not fn[0].endswith('$'):
+                    hist.call_function(fn, args, avars + ['QV#', 'KI%(1)'], prefix='QV#*', suffix='+KI%(1)')
+            sno += 1
+            hist.verify(sno)
+        for bad in FAILING_NUM:
+            for a, b in (('QI%', 'QD#'), ('QD#', 'KD#(1)'), ('KI%(1)', 'QS!'), ('QV#', 'QV#')):
+                for op, name in NUM_BINOPS[:7]:
+                    hist.evaluate(name + '-then-error', (a + op + b + '+' + bad).encode(), [('left', a), ('right', b)])
+                hist.evaluate('error-then-times', (bad + '+' + a + '*' + b).encode(), [('left', a), ('right', b)])
+            sno += 1
+            hist.verify(sno)
         hist.finish()
     finally:
         hist.close()
